@@ -28,6 +28,9 @@ CLAIMED = {
  'C10': ('M', 'symbolic execution of the MIR of fold_binary / fold_unary (varpulis-parser) on symbolic operands, followed by symbolic execution of the real evaluator (eval_expr_with_functions, varpulis-runtime) on both the original and the folded expression against the same symbolic event; Z3 decides agreement on every pair of paths; native replay through fold_program + eval_filter_expr',
          'Solver-decided for every operator, operands each an integer literal (any i64), a float literal (any f64) or a field reference, and an event where the field is missing or holds a value of any type: the folded expression evaluates to the same value (Value::eq) or the same absence of a value, and folding does not panic. Disagreements are keyed by (operator, operand kinds, type class of the field); the identity rewrites pinned by the optimizer tests are recorded as known findings.',
          'Depth 1 (one operator over literal/field operands); Pow exponents bounded to 0..6 with exact models of wrapping_pow and of compiler-rt __powidf2; strings/arrays/maps opaque. Outside: deeper nesting (fold_expr recursion), fold_program traversal of statements/stream ops. Trusted: MIR dumps, executor, models listed in evidence.', 'DESIGN.md §4 C10'),
+ 'C40': ('M', 'symbolic execution of the MIR of <Value as PartialEq>::eq, float_eq and <Value as Hash>::hash (varpulis-core) into Z3 on symbolic values of every scalar variant, short arrays and maps in both insertion orders, with hashing observed through a recording hasher (exact write sequence); native probe replay',
+         'Solver-decided: equality is reflexive, symmetric and transitive (three symbolic values) and eq(a, b) implies identical hasher write sequences (hence equal hashes for every Hasher), for all scalar variants with fully symbolic payloads (all f64 bit patterns incl. NaN/-0.0, all i64/u64, booleans, strings as identity tokens), arrays of <= 2 scalars and maps of <= 2 entries with distinct keys in either insertion order.',
+         'Trusted: MIR dump + executor; IndexMap equality modelled by its documented semantics (order-independent), iteration in insertion order; nested hashers modelled as uninterpreted folds of their write sequence. Outside: containers nested deeper than one level or longer than 2.', 'DESIGN.md §4 C40'),
  'C12': ('M', 'symbolic execution of the MIR of CountWindow / TumblingWindow / SessionWindow add_shared, advance_watermark and flush_shared (ColumnarBuffer inlined, VecDeque/Vec/iterator models with closures executed from MIR) into Z3; one inductive step from an arbitrary valid window state with the buffer length enumerated; bounded differential native replay',
          'Solver-decided step obligations for every buffer of 0..3 (quick) / 0..5 (thorough) symbolic events, every count 1..K+1, every duration/gap/timestamp in range: emitted ++ buffer == old buffer ++ [event] in arrival order (nothing lost or duplicated), a count window closes with exactly its size, tumbling windows hold only events earlier than first event + duration (ties at exactly start+duration close), session gaps within `gap` (gap exactly equal stays), watermark closes exactly at the documented condition; window invariants are preserved, so the step covers histories of any length.',
          'Trusted: MIR dumps (both printers), executor, container models (vlib/containers.py), chrono time arithmetic as 64-bit nanoseconds. Outside: Partitioned* wrappers, checkpoint/restore, flush_columnar, zero-length tumbling windows, engine/pipeline plumbing; time conditions are claimed for in-order arrivals (with ties), partition obligations for any order.', 'DESIGN.md §4 C12/C13'),
